@@ -45,8 +45,15 @@ func genCfgs(e *vh.Env) []cfgT {
 				if r > 0 {
 					eps = eps[2:]
 				}
-				for _, ep := range eps {
-					out = append(out, cfgT{ep, nb, low})
+				for i, ep := range eps {
+					c := cfgT{ep, nb, low, nil}
+					// the default, year-2000 and special epochs always, the random ones half of the time:
+					// configured through the public Setup(UseEpoch, UseNodeMode, NodeAtLowest)
+					boundary := (r == 0 && i != 2 && i != 3) || (r > 0 && i == 2)
+					if boundary || e.Rnd.Intn(2) == 0 {
+						c = viaSetup(e, c)
+					}
+					out = append(out, c)
 				}
 			}
 		}
@@ -441,13 +448,16 @@ func generate(e *vh.Env) {
 	// fixed cases replayed first on every run: the witness of the repaired UnixNano defect (DESIGN section 7, fix 15)
 	// and the extreme ids of every layout
 	{
-		w := cfgT{1305072000000, 8, false}
+		w := cfgT{1305072000000, 8, false, nil}
 		if want("cn") {
 			emitCn(e, w, 8731190989962813788, "corpus")
 		}
 		for _, nb := range []uint8{8, 9, 10} {
 			for _, low := range []bool{false, true} {
-				c := cfgT{defEpoch, nb, low}
+				c := cfgT{defEpoch, nb, low, nil}
+				if nb != 9 {
+					c = viaSetup(e, c)
+				}
 				for _, id := range []int64{0, 1, math.MaxInt64, math.MaxInt64 - 1, int64(1) << c.shift(), int64(1)<<c.shift() - 1} {
 					if want("fields") {
 						emitFields(e, c, id, "corpus")
@@ -463,7 +473,19 @@ func generate(e *vh.Env) {
 			}
 		}
 	}
+	if want("setup") {
+		for _, c := range setupOddities(e) {
+			emitSetup(e, c, "option-values")
+		}
+	}
+	nVia := 0
 	for _, c := range cfgs {
+		if c.via != nil {
+			nVia++
+			if want("setup") {
+				emitSetup(e, c, "generated")
+			}
+		}
 		for i := 0; i < nIDs; i++ {
 			id, cls := genID(e, c)
 			if want("fields") {
@@ -519,7 +541,7 @@ func generate(e *vh.Env) {
 		for r := 0; r < rounds; r++ {
 			c := cfgs[e.Rnd.Intn(len(cfgs))]
 			if r == 0 {
-				c = cfgT{defEpoch, 10, false}
+				c = viaSetup(e, cfgT{defEpoch, 10, false, nil})
 			}
 			t, d := parRound(e, c, e.Rnd.Int63(), iters, fmt.Sprintf("%d-goroutines", parG))
 			total, differing = total+t, differing+d
@@ -540,6 +562,7 @@ func generate(e *vh.Env) {
 		}
 	}
 	e.Meta["configs"] = len(cfgs)
+	e.Meta["configs_through_Setup"] = nVia
 	e.Meta["layouts"] = "node bits 8/9/10 x node-at-lowest on/off; epochs: default, 2000-01-01, random 2000..2300, random 2300..9600, special (2011-05-11, one year before 2262-04-11, 9725, now)"
 	e.Meta["zone_assumption_checked"] = "time.LoadLocation(Asia/Shanghai) offset sampled from 1991-09-16 to year 10100 (CZone cases)"
 }
